@@ -117,7 +117,8 @@ inductive Mode where
   | deeper
 
 /-- the part of `simulate` between the model call and the action update: child lookup, node creation,
-    particle push, allocation; says how the future reward is obtained -/
+    particle push, allocation; says how the future reward is obtained.  For MCTS the particle list of a
+    state node is a ghost: the states the simulations passed through it (all equal to its key). -/
 def descend (m : Mdl) (H : Nat) (t : Tree) (p : Path) (depth : Nat) (st : Step) : Option (Tree × Mode) :=
   let child := p ++ [(st.a, m.key st)]
   let deeper := decide (depth + 1 < H) && !st.term
@@ -131,7 +132,7 @@ def descend (m : Mdl) (H : Nat) (t : Tree) (p : Path) (depth : Nat) (st : Step) 
   else
     if deeper then
       if !(t.ex child) then some (t.create child st.s1, .roll (m.rollLen H depth))
-      else (t.alloc child (m.numA st.s1)).map (fun t => (t, Mode.deeper))
+      else ((t.pushPart child st.s1).alloc child (m.numA st.s1)).map (fun t => (t, Mode.deeper))
     else some (t, .stop)
 
 /-- `simulate(node at p, s, depth)`; `H` is `maxDepth_`.  Returns the new tree, the return `rew` and the
